@@ -447,6 +447,31 @@ def gen_cmd(rng, pop, kind=None):
     raise ValueError(kind)
 
 
+def sizeless_lights(env, pop, dplan):
+    """Matrix lights whose size discovery never learned: by the directory, and by the discovery plan itself (all
+    three attempts of the size query fail) whatever the directory then claims."""
+    out = {n for n, d, code in env.view() if code == -1}
+    fails = {tuple(k) for k in dplan}
+    for p in pop:
+        if p['kind'] == 'matrix' and all((p['name'], 'get_chain', i) in fails for i in range(RETRY_BOUND)):
+            out.add(p['name'])
+    return out
+
+
+def own_numbers_outside(pop, cmds, sizeless=()):
+    """Some matrix command names a row or column outside a matrix light whose size is known."""
+    by = {p['name']: p for p in pop}
+    for c in cmds:
+        if c[0] != 'matrix' or c[1] not in by or by[c[1]]['kind'] != 'matrix' or c[1] in sizeless:
+            continue
+        for span, n in ((c[2], by[c[1]]['height']), (c[3], by[c[1]]['width'])):
+            if span is not None:
+                a, b = span
+                if a >= n or (b is not None and (b >= n or b < a)):
+                    return True
+    return False
+
+
 def is_idle(pop, c, sizeless=()):
     """Commands aimed at an unknown name or at a light without the capability -- including a
     matrix light whose size discovery never learned (the property: they change nothing)."""
@@ -677,7 +702,7 @@ def run(ctx):
 
     def exercise(env, pop, dplan, dhead, cmds, key, extra_plans=(), join=True):
         script = render(cmds, rng if join else None)
-        sizeless = {n for n, d, code in env.view() if code == -1}
+        sizeless = sizeless_lights(env, pop, dplan)
         stripped = [c for c in cmds if not is_idle(pop, c, sizeless)]
         stats['scripts'] += 1
         stats['idle_cmds'] += len(cmds) - len(stripped)
@@ -687,7 +712,10 @@ def run(ctx):
         free = env.run(render(stripped)) if len(stripped) != len(cmds) else free_full
         # a script whose own row/column numbers lie outside the matrix ends with IndexError
         # whatever the devices do: outside the property's triggers, kept for the model only
-        self_aborting = any(o['abort'] is not None and o['abort'][0] == 'IndexError' for o in (free, free_full))
+        # (judged by the script's numbers against the true size of a matrix light whose size is known -- an IndexError
+        # on any other target, e.g. a matrix light that never told its size, is an abort the property forbids)
+        self_aborting = (any(o['abort'] is not None and o['abort'][0] == 'IndexError' for o in (free, free_full))
+                         and own_numbers_outside(pop, cmds, sizeless))
         stats['self_aborting_scripts'] += self_aborting
         plans, exhaustive = plans_for(rng, free['requests'], exhaustive_upto=upto, n_random=14 if thorough else 6)
         plans = [set(p) for p in extra_plans] + plans
@@ -1055,7 +1083,7 @@ def replay(ctx, payload):
                 c[2] = None if c[2] is None else tuple(c[2])
                 c[3] = None if c[3] is None else tuple(c[3])
             norm.append(tuple(c))
-        stripped = render([c for c in norm if not is_idle(pop, c, {n for n, d_, code in env.view() if code == -1})])
+        stripped = render([c for c in norm if not is_idle(pop, c, sizeless_lights(env, pop, dplan))])
     free = env.run(stripped if stripped is not None else script)
     healthy = [l for l in env.net.labels() + [LAN] if not any(k[0] == l for k in plan)]
     v = py_judge(env.ids, healthy, obs, free, payloads=not dirty_run(obs))
